@@ -17,7 +17,7 @@ the frame theorems (`RxProofs/Lemmas/StructFrame.lean`) are proved.
 namespace Struct.Captures
 
 inductive Kind where
-  | oneshot | subject | container | disposable | cell | unknown
+  | oneshot | subject | container | disposable | cell | object | unknown
 deriving DecidableEq, Repr
 
 structure Entry where
